@@ -1,14 +1,15 @@
 """Host file-system monitor and sandbox helpers for C27/C28 (harness side only, nothing in /repo changes).
 
 The monitor is a `sys.addaudithook` hook (audit hooks cannot be removed, hence a switchable module-global).
-While recording it logs every host file-system operation Python issues: abstract operation, real path and the
+While recording it logs every host file-system operation the recording thread issues (the Session executes statements
+in the calling thread; other harness threads, e.g. the TLC runner, are ignored): abstract operation, real path and the
 kind of the target at the moment the operation is issued (an audit event fires BEFORE the operation).
 Read-only accesses below the interpreter / package / repository prefixes (imports, pcbasic's data files) are not
 caused by BASIC file statements and are ignored (counted).
 """
-import os, sys, hashlib
+import os, sys, hashlib, threading
 
-_ST = {'on': False, 'log': None, 'installed': False, 'ignored': 0, 'busy': False}
+_ST = {'on': False, 'log': None, 'installed': False, 'ignored': 0, 'busy': False, 'thread': None}
 _WFLAGS = os.O_WRONLY | os.O_RDWR | os.O_CREAT | os.O_TRUNC | os.O_APPEND
 
 _LIST = {'os.listdir', 'os.scandir', 'os.walk', 'os.fwalk', 'glob.glob', 'glob.glob/2', 'pathlib.Path.glob',
@@ -70,6 +71,8 @@ def _rec(op, path, kind=None):
 def _hook(event, args):
     if not _ST['on'] or _ST['busy']:
         return
+    if threading.get_ident() != _ST['thread']:
+        return      # another thread of the harness (e.g. the TLC runner); the interpreter runs in the recording thread
     if event != 'open' and not (event.startswith('os.') or event.startswith('shutil.') or event.startswith('glob.')
                                 or event.startswith('pathlib.') or event.startswith('tempfile.')):
         return
@@ -112,6 +115,7 @@ class recording(object):
         install()
         self.log = []
         _ST['log'] = self.log
+        _ST['thread'] = threading.get_ident()
         _ST['on'] = True
         return self.log
 
@@ -155,35 +159,36 @@ class Sandbox(object):
         return any(p == r or p.startswith(r + os.sep) for r in self.rootpaths)
 
     def snapshot(self):
-        """-> (dirs, files, outside_digest); dirs/files: sorted lists of tuples of names (str)."""
-        dirs, files = [], []
-        h = hashlib.blake2b(digest_size=12)
+        """-> (dirs, files, outside_digest); dirs/files: sorted lists of tuples of names (str).
+        The digest covers everything outside the mounts: name, type, size, modification time (ns) and link target of
+        every entry, so that any creation, deletion, renaming or modification there changes it."""
+        dirs, files, sig = [], [], []
         top = self.top
-        n = len(top) + 1
-        for dp, dn, fn in os.walk(top):
-            dn.sort()
-            rel = tuple(dp[n:].split(os.sep)) if len(dp) > n - 1 and dp != top else ()
-            if dp != top:
-                dirs.append(rel)
-                if not self.inside(dp):
-                    h.update(b'D' + os.fsencode(dp[n:]) + b'\0')
-            for f in sorted(fn):
-                p = os.path.join(dp, f)
-                if os.path.islink(p) and os.path.isdir(p):
-                    pass
-                files.append(rel + (f,))
-                if not self.inside(p):
-                    h.update(b'F' + os.fsencode(p[n:]) + b'\0')
-                    try:
-                        if os.path.islink(p):
-                            h.update(b'L' + os.fsencode(os.readlink(p)))
-                        else:
-                            with open(p, 'rb') as fh:
-                                h.update(fh.read())
-                    except OSError as e:
-                        h.update(b'E%d' % (e.errno or 0))
-                    h.update(b'\1')
-        return sorted(dirs), sorted(files), h.hexdigest()
+        roots = self.rootpaths
+        stack = [(top, (), not self.inside(top))]
+        while stack:
+            dp, rel, outside = stack.pop()
+            try:
+                entries = sorted(os.scandir(dp), key=lambda e: e.name)
+            except OSError as ex:
+                sig.append(('E', rel, ex.errno))
+                continue
+            for e in entries:
+                r = rel + (e.name,)
+                if e.is_dir(follow_symlinks=False):
+                    dirs.append(r)
+                    out = outside and e.path not in roots
+                    if out:
+                        sig.append(('D', r))
+                    stack.append((e.path, r, out))
+                else:
+                    files.append(r)
+                    if outside:
+                        st = e.stat(follow_symlinks=False)
+                        sig.append(('F', r, st.st_size, st.st_mtime_ns, st.st_mode,
+                                    os.readlink(e.path) if e.is_symlink() else None))
+        sig.sort(key=repr)
+        return sorted(dirs), sorted(files), hashlib.blake2b(repr(sig).encode('utf8', 'surrogateescape'), digest_size=12).hexdigest()
 
 
 def jpaths(paths):
